@@ -1,7 +1,8 @@
 import MlVerif.Model.Proto
 import MlVerif.Gen.C11
 import MlVerif.Model.Poly
-open MlVerif MlVerif.Proto MlVerif.Poly
+import MlVerif.Model.Itertools
+open MlVerif MlVerif.Proto MlVerif.Poly MlVerif.Itertools
 
 def parseBool? (s : String) : Option Bool :=
   if s == "1" then some true else if s == "0" then some false else none
@@ -32,6 +33,25 @@ def step : List String → String
     match parseNat? n, parseNat? d, parseBool? io, parseBool? b with
     | some n, some d, some io, some b => showMonos (some (polySpec n d io b))
     | _, _, _, _ => "bad-op"
+  -- the transcription of scikit-learn's `_combinations(n, 0, degree, io, bias)` over the itertools transcriptions
+  | ["sklearn", n, d, io, b] =>
+    match parseNat? n, parseNat? d, parseBool? io, parseBool? b with
+    | some n, some d, some io, some b => showMonos (sklearnCombinations n d io b)
+    | _, _, _, _ => "bad-op"
+  -- `_combinations(n, min_degree, max_degree, io, bias)`
+  | ["sklearnmm", n, lo, hi, io, b] =>
+    match parseNat? n, parseNat? lo, parseNat? hi, parseBool? io, parseBool? b with
+    | some n, some lo, some hi, some io, some b => showMonos (sklearnCombinationsMinMax n lo hi io b)
+    | _, _, _, _, _ => "bad-op"
+  -- `itertools.combinations(pool, r)` / `combinations_with_replacement(pool, r)` on an explicit pool
+  | ["itcomb", pool, r] =>
+    match parseNats? pool, parseNat? r with
+    | some pool, some r => showMonos (combinations pool r)
+    | _, _ => "bad-op"
+  | ["itcwr", pool, r] =>
+    match parseNats? pool, parseNat? r with
+    | some pool, some r => showMonos (combinationsWithReplacement pool r)
+    | _, _ => "bad-op"
   | ["names", n, d, io, b, feats] =>
     match parseNat? n, parseNat? d, parseBool? io, parseBool? b with
     | some n, some d, some io, some b =>
